@@ -1146,6 +1146,7 @@ where
                     runtime_types.extend(self.infer_runtime_type(aliased));
                 } else if let Some(TsInterfaceDecl {
                     body: TsInterfaceBody { body, .. },
+                    extends,
                     ..
                 }) = self.interfaces.get(&key)
                 {
@@ -1158,7 +1159,19 @@ where
                             runtime_types.insert(Some(atom!("Object")));
                         }
                     });
-                    if body.is_empty() {
+                    // call signatures may be inherited (`interface Cb extends Function {}`)
+                    extends.iter().for_each(|parent| {
+                        if let Some(ident) = parent.expr.as_ident() {
+                            runtime_types.extend(self.infer_runtime_type(&TsType::TsTypeRef(
+                                TsTypeRef {
+                                    type_name: TsEntityName::Ident(ident.clone()),
+                                    type_params: parent.type_args.clone(),
+                                    span: DUMMY_SP,
+                                },
+                            )));
+                        }
+                    });
+                    if runtime_types.is_empty() {
                         runtime_types.insert(Some(atom!("Object")));
                     }
                 } else {
